@@ -3,7 +3,7 @@ import os, json
 import shapes, nslgen, gentyped, vmcases, ircoq
 from props import c01
 
-STATIC = ["Model/IR.v", "Model/VM.v", "Model/WfIR.v", "Proofs/WfIRProofs.v"]
+STATIC = ["Model/IR.v", "Model/VM.v", "Model/WfIR.v", "Proofs/WfIRProofs.v", "Proofs/LowerWfProofs.v", "Proofs/LowerAllocProofs.v"]
 
 
 def run(ctx):
